@@ -34,7 +34,12 @@ def grads_mode(cases):
     out = {"checked": 0, "findings": [], "skipped": 0, "samples": []}
     rng = np.random.RandomState(0)
     for spec in cases:
-        for dt in ("float16", "float32", "float64"):
+        nleaves = len(spec.get("leaves", []))
+        # uniform precision, and MIXED precision (first leaf float64 / the rest float32, and the reverse) for cases with >= 2 leaves
+        modes = ["float16", "float32", "float64"] + (["float64+float32", "float32+float64"] if nleaves >= 2 else [])
+        for dt_mode in modes:
+            dts = [dt_mode] * max(nleaves, 1) if "+" not in dt_mode else [dt_mode.split("+")[0]] + [dt_mode.split("+")[1]] * (nleaves - 1)
+            dt = dts[0]
             env = _env()
             try:
                 for name, shape in spec.get("carrs", []):
@@ -42,9 +47,9 @@ def grads_mode(cases):
                 if spec.get("setup"):
                     exec(spec["setup"], env)
                 leaves = {}
-                for ent in spec.get("leaves", []):
+                for li, ent in enumerate(spec.get("leaves", [])):
                     name, shape = ent[0], tuple(ent[1])
-                    a = np.asarray(rng.rand(*shape) * 0.5 + 0.25).astype(dt)
+                    a = np.asarray(rng.rand(*shape) * 0.5 + 0.25).astype(dts[li])
                     if len(ent) > 2 and ent[2] == "F" and len(shape) >= 2:
                         a = np.asfortranarray(a)
                     leaves[name] = mg.Tensor(a)
@@ -73,10 +78,10 @@ def grads_mode(cases):
                 elif g.dtype != t.dtype:
                     bad = "dtype %s != %s" % (g.dtype, t.dtype)
                 if bad:
-                    out["findings"].append({"case": spec["name"], "dtype": dt, "tensor": n, "what": bad, "body": spec["body"],
+                    out["findings"].append({"case": spec["name"], "dtype": dt_mode, "tensor": n, "what": bad, "body": spec["body"],
                                             "signature": "grad-%s:%s" % (bad.split()[0], spec["name"].split("/")[1] if "/" in spec["name"] else spec["name"])})
             if len(out["samples"]) < 3:
-                out["samples"].append({"case": spec["name"], "dtype": dt})
+                out["samples"].append({"case": spec["name"], "dtype": dt_mode})
     return out
 
 
